@@ -6,12 +6,15 @@ Line protocol for `Model/PageSheet.lean`.  Tokens: `(dim q s:unit)` `(num q)` `(
   bleedv (toks…)                   → `none` | `auto` | `(q unit)`
   bleedc fs rootFs (marks…) (toks…) → `none` | px
   sheet fs rootFs uaBleed size marks bleed   (each `none` | `(toks…)`; uaBleed `none` | q) → `(w h bleed (marks…))`
+  sheetbox fs rootFs size (mt mr mb ml pt pr pb pl)   (size `none` | `(toks…)`; each dim `auto` | q | `(pct q)`)
+      → the page box of `make_page` on the computed `size`: `(Page.width Page.height) (width height) (mt mr mb ml) (pt pr pb pl)`
 -/
 import WpModel.Drive.C14
 import WpModel.Model.PageSheet
+import WpModel.Model.PagePercent
 
 namespace Wp.Drive.C14Sheet
-open Wp Wp.PageSheet Wp.Drive.C14
+open Wp Wp.PageSheet Wp.PageBoxes Wp.PagePercent Wp.Drive.C14
 
 def stok? : Sx → Option STok
   | .atom "ot" => some .other
@@ -65,6 +68,16 @@ def handle (cmd : String) (args : List Sx) : Option String :=
     let s := sheetOf (← fs.rat?) (← rfs.rat?) ua (← optToks? size) (← optToks? marks) (← optToks? bleed)
     pure ("(" ++ showPx s.width ++ " " ++ showPx s.height ++ " " ++ showPx s.bleed ++ " (" ++
           " ".intercalate (s.marks.map showStr) ++ "))")
+  | "sheetbox", [fs, rfs, size, .list dims] => do
+    let s := sheetOf (← fs.rat?) (← rfs.rat?) (some 0) (← optToks? size) none none
+    match s.width, s.height, ← allSome dim? dims with
+    | .px w, .px h, [mt, mr, mb, ml, pt, pr, pb, pl] =>
+      let p := makePageBox { sizeW := w, sizeH := h, width := .auto, height := .auto, minW := .auto, maxW := none
+                             minH := .auto, maxH := none, mt := mt, mr := mr, mb := mb, ml := ml
+                             pt := pt, pr := pr, pb := pb, pl := pl, bt := 0, br := 0, bb := 0, bl := 0 }
+      pure (s!"({showRat p.marginWidth} {showRat p.marginHeight}) ({showRat p.width} {showRat p.height}) " ++
+            s!"({showRat p.mt} {showRat p.mr} {showRat p.mb} {showRat p.ml}) ({showRat p.pt} {showRat p.pr} {showRat p.pb} {showRat p.pl})")
+    | _, _, _ => pure "unsupported"
   | _, _ => none
 
 end Wp.Drive.C14Sheet
